@@ -236,6 +236,23 @@ void shapeBounds(uint64_t seed, int variant) {
 			float tol = 1e-4f * (b.radius + 1.0f);
 			for (auto& p : v)
 				if (p.DistanceTo(b.center) > b.radius + tol) { bad("shape-bounds-contain", fmt("%s %s: vertex outside by %g", m.verName.c_str(), s->GetBlockName(), p.DistanceTo(b.center) - b.radius)); break; }
+			// positions edited in place (same count), bounds recomputed: twice, with a query in between (accessors keep copies of the vertices)
+			Rng mr(seed ^ 0xB07D5);
+			for (int move = 0; move < 2; move++) {
+				R_eval();
+				Vector3 shift(mr.range(-80, 80), mr.range(-80, 80), mr.range(-80, 80));
+				float k = mr.range(0.5f, 3.0f);
+				for (auto& p : v) p = p * k + shift;
+				nif->SetVertsForShape(s, v);
+				s->UpdateBounds();
+				BoundingSphere b2 = s->GetBounds();
+				std::vector<Vector3> now;
+				nif->GetVertsForShape(s, now);
+				float tol2 = 1e-4f * (b2.radius + 1.0f) + 2e-3f * (std::fabs(shift.x) + std::fabs(shift.y) + std::fabs(shift.z) + 1.0f);   // half-float positions
+				for (auto& p : now)
+					if (!(p.DistanceTo(b2.center) <= b2.radius + tol2)) { bad("shape-bounds-contain-after-move", fmt("%s %s: after moving the vertices (move %d) a vertex lies outside the recomputed bounds by %g (radius %g)", m.verName.c_str(), s->GetBlockName(), move, p.DistanceTo(b2.center) - b2.radius, b2.radius)); break; }
+				if (move == 0) (void)nif->GetVertsForShape(s);
+			}
 			R_cover(fmt("shape/%s/%s/%zu/%016llx", m.verName.c_str(), s->GetBlockName(), v.size(), (unsigned long long)seed));
 		}
 	}
